@@ -148,6 +148,14 @@ WC_STRUCT = {"WeightedCentroid": ("Cen.WC.mk", ["dimensions", "weight", "accumul
 WC_FIELDS = [(r"\.dimensions\b", ".dim"), (r"\.accumulated\b", ".acc")]
 
 
+DIMS2 = "geo/src/algorithm/dimensions.rs"
+CEN_DIM_PATHS = {"Dimensions::Empty": "0", "Dimensions::ZeroDimensional": "1", "Dimensions::OneDimensional": "2", "Dimensions::TwoDimensional": "3"}
+
+
+def dim_hdr2(bounds, ty):
+    return r"impl<C: %s> HasDimensions for %s<C> \{.*?fn dimensions\(&self\) -> Dimensions \{" % (bounds, ty)
+
+
 def coord_op(tr, name, rhs):
     return dict(file=COORD, hdr=r"impl<T: CoordNum> %s for Coord<T> \{\s*type Output = Self;\s*(?:#\[inline\]\s*)?fn %s\(self, rhs: %s\) -> Self \{"
                 % (tr, tr.split("<")[0].lower(), "T" if "<" in tr else "Self"),
@@ -176,7 +184,29 @@ def centroid_jobs(repo):
         coord_op("Div<T>", "coordDiv", "Rat"),
         # the operators of `Coord<T>` (and of `Point<T>`, which forwards to them) used by centroid.rs: `c * t`, `c / t` are the
         # functions regenerated above; `+` / `-` are the `Pt` instances of GeoModel/Geom.lean (equal to coordAdd / coordSub: tie theorem)
-        dict(raw="instance instHMulPtRat : HMul Pt Rat Pt := ⟨coordMul⟩\ninstance instHDivPtRat : HDiv Pt Rat Pt := ⟨coordDiv⟩\n"),
+        dict(raw="scoped instance instHMulPtRat : HMul Pt Rat Pt := ⟨coordMul⟩\nscoped instance instHDivPtRat : HDiv Pt Rat Pt := ⟨coordDiv⟩\n"),
+        # dimensions.rs again (as in DimsGen, with `Dimensions` as its rank and under other names: GeoModel/Locate.lean, where `Dim`
+        # lives, must not be imported here — its names collide with those of GeoModel/Centroid.lean in the C06 proofs)
+        dict(file=DIMS2, hdr=dim_hdr2("CoordNum", "Line"), name="cenLineDimensions", params="(s e : Pt)", ret="Nat", paths=CEN_DIM_PATHS,
+             subst=[("self.start", "s"), ("self.end", "e")]),
+        dict(file=DIMS2, hdr=dim_hdr2("CoordNum", "LineString"), name="cenLineStringDimensions", params="(cs : List Pt)", ret="Nat",
+             paths=CEN_DIM_PATHS, funcs={".any": "({0}.any {1})"}, subst=[("self.1", "cs")],
+             opts={"accessors": {"is_empty": "{}.isEmpty", "iter": "{}"}}),
+        dict(file=DIMS2, hdr=dim_hdr2("CoordNum", "Rect"), name="cenRectDimensions", params="(mn mx : Pt)", ret="Nat", paths=CEN_DIM_PATHS,
+             subst=[("self.min", "mn"), ("self.max", "mx")], opts={"accessors": {"min": "{}.min", "max": "{}.max"}}),
+        # area.rs again (as in AreaGen, under other names: GeoModel/Area.lean must not be imported here — its names collide with
+        # those of GeoModel/Centroid.lean in the C06 proofs); `lines()` = windows(2), `map_coords(f)` = f on both end points
+        dict(file="geo/src/algorithm/area.rs",
+             hdr=r"pub\(crate\) fn twice_signed_ring_area<T>\(linestring: &LineString<T>\) -> T\s+where\s+T: CoordNum,\s*\{",
+             name="cenTwiceSignedRingArea", params="(linestring : List Pt)", ret="Rat", paths=CEN_PATHS, funcs={".map_coords": "({1} {0}.1, {1} {0}.2)"},
+             subst=[("linestring.1", "linestring")],
+             opts={"mut_types": {"tmp": "Rat"},
+                   "accessors": {"len": "{}.length", "is_empty": "{}.isEmpty", "first": "{}.head?", "last": "{}.getLast?", "unwrap": "(Gen.unwrap {})",
+                                 "lines": "(Geo.windows2 {})", "determinant": "(Gen.lineDeterminant {0}.1 {0}.2)"}}),
+        dict(file="geo/src/algorithm/area.rs",
+             hdr=r"pub\(crate\) fn get_linestring_area<T>\(linestring: &LineString<T>\) -> T\s+where\s+T: CoordFloat,\s*\{",
+             name="cenGetLinestringArea", params="(linestring : List Pt)", ret="Rat", paths=CEN_PATHS,
+             funcs={"twice_signed_ring_area": "cenTwiceSignedRingArea"}),
         dict(file=CEN, hdr=r"fn add_assign\(&mut self, b: WeightedCentroid<T>\) \{", name="wcAddAssign", params="(self_ b : Cen.WC)",
              ret="Cen.WC", paths=CEN_PATHS, funcs=cmp_nat, resub=WC_FIELDS, opts=wc),
         dict(file=CEN, hdr=r"fn sub_assign\(&mut self, b: WeightedCentroid<T>\) \{", name="wcSubAssign", params="(self_ b : Cen.WC)",
@@ -199,11 +229,11 @@ def centroid_jobs(repo):
         dict(file=CEN, hdr=r"impl<T> Centroid for Line<T>\s+where\s+T: GeoFloat,\s*\{\s*type Output = Point<T>;\s*fn centroid\(&self\) -> Self::Output \{",
              name="lineCentroid", params="(s e : Pt)", ret="Pt", paths=CEN_PATHS, opts={"accessors": {"start_point": "{}.start_point", "end_point": "{}.end_point"}},
              subst=[("self.start_point", "s"), ("self.end_point", "e")]),
-        # `Line::dimensions` = Gen.lineDimensions (DimsGen, tied in C01), as a rank; `unreachable!` arm: state unchanged (dead code)
+        # `Line::dimensions` = cenLineDimensions above; `unreachable!` arm: state unchanged (dead code)
         dict(file=CEN, hdr=r"fn add_line\(&mut self, line: &Line<T>\) \{", name="addLine",
              params="(len : Pt → Pt → Rat) (self_ : Cen.Op) (line : Pt × Pt)", ret=OP, paths=CEN_PATHS,
              funcs={".length": [(r"^Euclidean$", "(len {1}.1 {1}.2)")]}, subst=[("line.start", "line.1")], pro=pro,
-             opts=o(unreachable="self_0", accessors={"dimensions": [(r"^line$", "(Dim.rank (Gen.lineDimensions {0}.1 {0}.2))")],
+             opts=o(unreachable="self_0", accessors={"dimensions": [(r"^line$", "(cenLineDimensions {0}.1 {0}.2)")],
                                                      "centroid": [(r"^line$", "(lineCentroid {0}.1 {0}.2)")]}),
              resub=[(r"\(lineCentroid line\.1 line\.2\)\.1\b", "(lineCentroid line.1 line.2)")]),
         # `line_string.0[0]` stands under the guard `len() == 1`; `lines()` = `self.0.windows(2)` as pairs (`Geo.windows2`)
@@ -216,13 +246,41 @@ def centroid_jobs(repo):
         dict(file=CEN, hdr=r"fn add_multi_point\(&mut self, multi_point: &MultiPoint<T>\) \{", name="addMultiPoint",
              params="(self_ : Cen.Op) (multi_point : List Pt)", ret=OP, paths=CEN_PATHS,
              subst=[("multi_point.1", "multi_point"), ("element.1", "element")], pro=pro, opts=o()),
+        # `get_linestring_area` = the function above; `LineString::dimensions` = cenLineStringDimensions above;
+        # `ring[0]` / `ring.0[0]`: the total `Gen.idx` (the first stands in the arm of a
+        # one-point ring, the second behind `area != 0`; neither guard is syntactic — explicit choice, a panic would be seen by
+        # the harness); `lines()` = windows(2); `Line::map_coords(f)` = f on both end points; `abs` = rabs
+        dict(file=CEN, hdr=r"fn add_ring\(&mut self, ring: &LineString<T>\) \{", name="addRing",
+             params="(len : Pt → Pt → Rat) (self_ : Cen.Op) (ring : List Pt)", ret=OP, paths=CEN_PATHS,
+             funcs={"get_linestring_area": "(cenGetLinestringArea {0})", ".fold": "(List.foldl (α := Pt) (β := Pt × Pt) {2} {1} {0})",
+                    ".map_coords": "({1} {0}.1, {1} {0}.2)"},
+             subst=[("ring.1", "ring"), ("line.end", "line.2"), ("line.start", "line.1")], pro=pro,
+             opts=o(unguarded_index="total",
+                    accessors={"dimensions": [(r"^ring$", "(cenLineStringDimensions {0})")], "lines": "(Geo.windows2 {})",
+                               "determinant": "(Gen.lineDeterminant {0}.1 {0}.2)", "abs": "(Geo.rabs {})"})),
+        # `Rect::dimensions` = cenRectDimensions above; `rect.centroid().0` = `Rect::center` (Gen.rectCenter, RectGen,
+        # tied in C18); `Rect::unsigned_area` = width * height (Gen.rectWidth / rectHeight, tied in C18 / C05); `unreachable!`: unchanged
+        dict(file=CEN, hdr=r"fn add_rect\(&mut self, rect: &Rect<T>\) \{", name="addRect",
+             params="(len : Pt → Pt → Rat) (self_ : Cen.Op) (rect : SM.RectS)", ret=OP, paths=CEN_PATHS,
+             funcs={"Line::new": "({0}, {1})"}, pro=pro, resub=[(r"\(Gen\.rectCenter rect\)\.1\b", "(Gen.rectCenter rect)")],
+             opts=o(unreachable="self_0", rank_match_default=True,
+                    accessors={"dimensions": [(r"^rect$", "(cenRectDimensions {0}.mn {0}.mx)")], "min": "{}.mn", "max": "{}.mx",
+                               "centroid": [(r"^rect$", "(Gen.rectCenter {0})")],
+                               "unsigned_area": [(r"^rect$", "((Gen.rectWidth {0}) * (Gen.rectHeight {0}))")]})),
+        # the sub-operations of add_polygon are local `CentroidOperation`s (`Cen.Op`); `x.0` of one = the option itself
+        dict(file=CEN, hdr=r"fn add_polygon\(&mut self, polygon: &Polygon<T>\) \{", name="addPolygon",
+             params="(len : Pt → Pt → Rat) (self_ : Cen.Op) (polygon : Poly)", ret=OP, paths=CEN_PATHS, pro=pro,
+             resub=WC_FIELDS + [(r"\b(exterior_operation|interior_operation)\.1\b", r"\1")],
+             opts=o(mut_types={"exterior_operation": OP, "interior_operation": OP, "poly_weighted_centroid": "Cen.WC"},
+                    mut_methods={"add_ring": "(addRing len {0} {1})", "sub_assign": "wcSubAssign"},
+                    accessors={"exterior": "{}.ext", "interiors": "{}.ints", "is_zero": "({} == 0)"})),
     ]
 
 
 def centroid_functions(repo, outdir, write):
     hdr = ["/- generated by translator/rs2lean.py (jobs2, statement fragment) from %s and %s; do not edit -/" % (CEN, COORD),
-           "import GeoModel.Centroid", "import GeoModel.Locate", "import GeoModel.TRANPrelude", "import GeoModel.Gen.DimsGen",
-           "import GeoModel.Gen.AreaGen", "", "namespace Geo.Gen", "open Geo", "set_option linter.unusedVariables false", ""]
+           "import GeoModel.Centroid", "import GeoModel.TRANPrelude",
+           "import GeoModel.Gen.Kernel", "import GeoModel.Gen.RectGen", "", "namespace Geo.Gen", "open Geo", "set_option linter.unusedVariables false", ""]
     return emit(repo, outdir, "CentroidGen.lean", hdr, centroid_jobs(repo), write)
 
 
